@@ -297,6 +297,17 @@ def rule_d_e(repo, chk):
         q = pat.guarded_by(g, n, passed)
         chk.ob('d', s.ref, 'an event is transmitted only if no send firewall is configured or the firewall accepted it', q is None, loc(s, n.ast),
                path=pat.path_lines(q) if q else None, discr='send-firewall')
+    # every transmitted packet consumes a call id (the peer answers every event under its id)
+    ids = [n for n in g.nodes if n.kind == 'stmt' and isinstance(n.ast, ast.Assign) and src(n.ast.value) == 'self.__nid']
+    incs = [n for n in g.nodes if n.kind == 'stmt' and isinstance(n.ast, ast.AugAssign) and src(n.ast.target) == 'self.__nid' and isinstance(n.ast.op, ast.Add)]
+    chk.rule('C19.h', 'every transmitted event takes a fresh call id (the counter is advanced on every path that transmits)')
+    for n in tx:
+        q1 = Q.reachable_without(g, n, avoid_node=lambda m: m in ids)
+        before = Q.reachable_without(g, n, avoid_node=lambda m: m in incs)
+        after = Q.escapes(g, [n], lambda m: m in incs, exits=('exit',), exc=()) if before is not None else None
+        chk.ob('h', s.ref, 'a transmitted event carries the current call id and the counter is advanced on every path, whether or not a result is awaited',
+               q1 is None and bool(ids) and bool(incs) and (before is None or after is None), loc(s, n.ast),
+               path=pat.path_lines((before or []) + (after or [])) if (before is not None and after is not None) else None, discr='fresh-call-id')
     dump = [n for n in g.nodes if n.kind == 'stmt' and any(call_name(c) == 'dump_event' and src(c.args[0]) == ev for c in calls_in(n.ast))]
     chk.ob('d', s.ref, 'what is transmitted is the serialised event followed by the delimiter', bool(dump) and all('+ DELIMITER' in src(n.ast) for n in dump), loc(s, s.node),
            discr='packet-shape')
